@@ -26,6 +26,7 @@ inductive Val where
   | fn (id : Nat)
   | builtin (name : String)
   | lazy (id : Nat)
+  | mark (loop : Nat)          -- VM only: `SexpStackmark` (a loop's data-stack mark)
 deriving Repr, Inhabited, BEq, DecidableEq
 
 /-- Arrays live here; `aset` mutates in place, every constructor allocates. -/
@@ -79,6 +80,7 @@ def showVal (h : DataHeap) : Nat → Val → String
   | _, .fn _ => "fn"
   | _, .builtin _ => "fn"
   | _, .lazy _ => "lazy"
+  | _, .mark _ => "?*zygo.SexpStackmark"
   | 0, _ => "..."
   | d+1, .arr r => "[" ++ joinSp (showVals h d (h.get r)) ++ "]"
   | d+1, .pair a b => "(" ++ joinSp (showTail h d (.pair a b)) ++ ")"
